@@ -10,7 +10,7 @@ package main
 //	                                           ok:f0:0:255 | ok:m16:<low>:<high> | ok:ext<format> | panic
 //	tmcmapdir.f0 bytes=<hex>                -> ok:<hex of the 256 bytes> | err | panic
 //	tmcmapdir.f6 bytes=<hex> mac=<0|1>      -> ok:<code:gid,...> | err | panic
-//	tmcmapdir.lookup0 data=<hex256> r=<int> -> glyph | panic
+//	tmcmapdir.lookup0 data=<hex256> r=<int> -> glyph (0 for negative runes and runes > 255)
 //	tmcmapdir.lookup16 map=<c:g,...> r=<int> -> glyph
 //	tmcmapdir.formats                       -> the keys of cmap.decoders, ascending
 
@@ -439,7 +439,8 @@ func init() {
 	}
 	// direct predicate "Format0.Lookup returns a glyph for every rune" (the Lean side answers
 	// every non-model total.* line with the constant "total"); data defaults to Data[i] = i.
-	// Generated only for r >= 0; `total.cmapdir-lookup0 r=-1` is the known finding.
+	// Negative runes included: `total.cmapdir-lookup0 r=-1` panicked before the repair of
+	// format0.go (finding C02-format0-lookup-negative).
 	ops["total.cmapdir-lookup0"] = func(f Fields) string {
 		return guard(func() string {
 			st := &cmap.Format0{}
@@ -725,9 +726,10 @@ func init() {
 			}, "v"+g)))
 		}
 		for k := 0; k < budget/6; k++ {
-			rr := Pick(r, []int{0, 1, 255, 256, 65535, 0x10FFFF, 2147483647, r.Intn(256), r.Intn(0x110000)})
+			rr := Pick(r, []int{0, 1, 255, 256, 65535, 0x10FFFF, 2147483647, r.Intn(256), r.Intn(0x110000),
+				-1, -2147483648, -256, -r.Range(1, 2147483647)})
 			c.Case(Direct, "total.cmapdir-lookup0", fmt.Sprintf("r=%d", rr), true)
-			c.Stat("tmcmapdir:lookup0_direct", fmt.Sprint("r>255:", rr > 255))
+			c.Stat("tmcmapdir:lookup0_direct", fmt.Sprint("r<0:", rr < 0, " r>255:", rr > 255))
 		}
 		for k := 0; k < budget/6; k++ {
 			var parts []string
